@@ -6,7 +6,7 @@
    execution of a prefix of the operation list.  The operation ORDER is not written here: it is
    gen/UploadGen.v (translated from remote_putfile, save_service_data, move_into_place) interpreted by `interp`.
 
-   Not modelled: a directory at the FINAL name (rename(2) onto it fails), links planted concurrently, power loss (no fsync in the code),
+   Not modelled: links planted concurrently by another process, power loss (no fsync in the code),
    rename(2) atomicity is the trusted primitive. *)
 From Coq Require Import NArith List Bool Arith.
 Import ListNotations.
@@ -27,7 +27,8 @@ Inductive op :=
 | Open (p : str)                      (* open(p, "wb"): create or truncate; follows a symlink *)
 | Write (p : str) (d : list N)        (* f.write(d) on the handle that was opened at p *)
 | Close (p : str)
-| Rename (a b : str)                  (* rename(2): replaces b itself, even if b is a symlink *)
+| Rename (a b : str)                  (* rename(2): replaces b itself, even if b is a symlink; fails if b is a directory *)
+| RenameElseUnlink (a b c : str)      (* try: rename(a, b)  except: (unlink(c), errors ignored); raise *)
 | Chmod (p : str)                     (* os.chmod follows a symlink *)
 | Unlink (p : str)
 | UnlinkIfLink (p : str)              (* if islink(p): remove(p)   (lstat) *)
@@ -53,6 +54,17 @@ Fixpoint exists_at (fuel : nat) (s : st) (p : str) : bool :=
   end.
 Definition exists_fuel : nat := 9.
 
+(* rename(2) of a non-directory: ENOENT without source, EISDIR onto a directory *)
+Definition step_rename (s : st) (a b : str) : st :=
+  match names s a with
+  | Some e => match names s b with
+              | Some D => fail s
+              | _ => if str_eqb a b then s
+                     else mkst (upd (upd (names s) b (Some e)) a None) (data s) (next s) (handle s) false (followed s)
+              end
+  | None => fail s
+  end.
+
 Definition step (s : st) (o : op) : st :=
   if failed s then s else
   match o with
@@ -74,12 +86,13 @@ Definition step (s : st) (o : op) : st :=
     | Some (i, pend) => mkst (names s) (updn (data s) i (data s i ++ pend)) (next s) None false (followed s)
     | None => fail s
     end
-  | Rename a b =>
-    match names s a with
-    | Some e => if str_eqb a b then s
-                else mkst (upd (upd (names s) b (Some e)) a None) (data s) (next s) (handle s) false (followed s)
-    | None => fail s
-    end
+  | Rename a b => step_rename s a b
+  | RenameElseUnlink a b c =>
+    let s' := step_rename s a b in
+    if failed s' then
+      mkst (match names s c with Some (F _) | Some (L _) => upd (names s) c None | _ => names s end)
+           (data s) (next s) (handle s) true (followed s)
+    else s'
   | Chmod p => match names s p with Some (F _) | Some D => s | Some (L _) => follow s | None => fail s end
   | Unlink p =>
     match names s p with
@@ -109,6 +122,7 @@ Definition touched (o : op) : list str :=
   match o with
   | Open p | Write p _ | Close p | Chmod p | Unlink p | UnlinkIfLink p | UnlinkIfExists p => [p]
   | Rename a b => [a; b]
+  | RenameElseUnlink a b c => [a; b; c]
   end.
 
 (* the operations that actually reach the operating system, in order (what an strace of the call shows):
@@ -125,6 +139,10 @@ Fixpoint effective (s : st) (ops : list op) : list op :=
                         end
     | UnlinkIfExists p => if exists_at exists_fuel s p then Unlink p :: effective (step s o) r
                           else effective (step s o) r
+    | RenameElseUnlink a b c =>
+      if failed (step_rename s a b)
+      then Rename a b :: match names s c with Some (F _) | Some (L _) => [Unlink c] | _ => [] end
+      else Rename a b :: effective (step s o) r
     | _ => o :: effective (step s o) r
     end
   end.
@@ -138,6 +156,7 @@ Definition interp (tmp final : str) (chunks : list (list N)) (k : stepk) : list 
   | SBlocks t | SDump t => map (Write (pth tmp final t)) chunks
   | SClose t => [Close (pth tmp final t)]
   | SMove a b => [Rename (pth tmp final a) (pth tmp final b)]
+  | SMoveElseUnlink a b c => [RenameElseUnlink (pth tmp final a) (pth tmp final b) (pth tmp final c)]
   | SChmod t => [Chmod (pth tmp final t)]
   | SUnlink t => [Unlink (pth tmp final t)]
   | SUnlinkIfLink t => [UnlinkIfLink (pth tmp final t)]
@@ -210,6 +229,7 @@ Definition code_op (o : op) : N * str * str * N :=
   | Unlink p => (6%N, p, [], 0%N)
   | UnlinkIfLink p => (7%N, p, [], 0%N)
   | UnlinkIfExists p => (8%N, p, [], 0%N)
+  | RenameElseUnlink a b c => (10%N, a, b, 0%N)
   end.
 
 Definition code_opt (o : option str) : list N := match o with None => [0%N] | Some p => 1%N :: p end.
